@@ -108,6 +108,8 @@ def run(ctx):
     prop = ctx.prop
     prof = PROFILE[prop]
     fams = prof[ctx.tier]
+    if os.environ.get("VERIF_FAMS"):          # debugging aid: restrict the families / resize the sample
+        fams = [int(x) for x in os.environ["VERIF_FAMS"].split(",")]
     ctx.build(["xp"])
     nproc = 8
 
@@ -115,7 +117,7 @@ def run(ctx):
     mc = ctx.tlc("XPathMC", "XPathMC.cfg", workers=12, timeout=3000, heap="12g",
                  consts={"Fams": set_lit(fams), "Faults": prof["mc_faults"]})
     # 2. behaviour generator + replay
-    nrand = prof["rand"][0 if ctx.quick() else 1]
+    nrand = int(os.environ.get("VERIF_NRAND", prof["rand"][0 if ctx.quick() else 1]))
     g = ctx.tlc("XPathGen", "XPathGen.cfg", workers=12, timeout=3000, heap="12g",
                 consts={"Fams": set_lit(fams), "NRand": 0, "RandKind": '"%s"' % prof["rand_kind"]})
     # TLC-sampled deeper ASTs: one worker, so that VERIF_SEED reproduces the sample
